@@ -14,6 +14,7 @@ import (
 	"fmt"
 	"os"
 	"path/filepath"
+	"sort"
 
 	"github.com/benoitkugler/webrender/css/counters"
 	pr "github.com/benoitkugler/webrender/css/properties"
@@ -274,6 +275,24 @@ type brokenBox struct {
 	box             Box
 	containingBlock Box
 	resumeAt        tree.ResumeStack
+	order           int // creation order, used to iterate deterministically
+}
+
+// newBrokenBox returns a brokenBox stamped with its creation order.
+func (l *layoutContext) newBrokenBox(box, containingBlock Box, resumeAt tree.ResumeStack) brokenBox {
+	l.brokenOrder++
+	return brokenBox{box, containingBlock, resumeAt, l.brokenOrder}
+}
+
+// sortedBrokenBoxes returns the values of [m] in creation order
+// (map iteration order is randomized).
+func sortedBrokenBoxes(m map[Box]brokenBox) []brokenBox {
+	out := make([]brokenBox, 0, len(m))
+	for _, v := range m {
+		out = append(out, v)
+	}
+	sort.Slice(out, func(i, j int) bool { return out[i].order < out[j].order })
+	return out
 }
 
 // layoutContext stores the global context needed during layout,
@@ -295,6 +314,7 @@ type layoutContext struct {
 	excludedShapes      *[]*bo.BoxFields
 	excludedShapesLists [][]*bo.BoxFields
 	brokenOutOfFlow     map[Box]brokenBox
+	brokenOrder         int
 
 	footnotes            []Box
 	currentPageFootnotes []Box
